@@ -879,7 +879,11 @@ def run(ctx):
                        "trailing [], named/in-place/anonymous nested struct/union, bit-fields of every integer type and "
                        "_Bool with widths 0..8*size, packed=True / pack=1,2,4,8 without bit-fields). Non-trivial = a "
                        "view with >= 2 fields that has a bit-field, a nested or anonymous aggregate, packing or a "
-                       "flexible array; distinct by declaration; cffi, gcc, model and spec all produced a result.")
+                       "flexible array; distinct by declaration; cffi, gcc, model and spec all produced a result. Declarations are spread "
+                       "over several cdef() calls: tags first mentioned (forward declaration / typedef / pointer field) under "
+                       "other packed=/pack= options than their definition; and the 'opaque' stream: a tag declared opaque, used "
+                       "(typeof pointer / prototype / pointer field), then defined in a later cdef() with pointer fields to "
+                       "aggregates first declared there (chains), every aggregate queried.")
     ctx.assumptions += [
         "hand-written model C01/Model.v of b_complete_struct_or_union_lock_held (GCC x86 branches); tied to the C code "
         "by this run's differential test on every view (sizeof, alignof, every field's offset/bitshift/bitsize/flags)",
